@@ -34,6 +34,9 @@ func (r *run) minInt(a, b value) value {
 	}
 	at, bt := intTerm(a), intTerm(b)
 	// decide by interval analysis when possible (bounds learned from the path condition)
+	if len(at)+len(bt) > 3000 {
+		return intSym("(ite (< " + at + " " + bt + ") " + at + " " + bt + ")")
+	}
 	if ea, eb := parseSexp(at), parseSexp(bt); ea != nil && eb != nil {
 		ia, ib := r.intervalOf(ea), r.intervalOf(eb)
 		if ia.hi != nil && ib.lo != nil && ia.hi.Cmp(ib.lo) <= 0 {
@@ -43,7 +46,7 @@ func (r *run) minInt(a, b value) value {
 			return b
 		}
 	}
-	return intSym("(ite (< " + at + " " + bt + ") " + at + " " + bt + ")")
+	return r.nameIfLarge(intSym("(ite (< " + at + " " + bt + ") " + at + " " + bt + ")"))
 }
 
 // seqPrefix returns the first n bytes of v (n already known to be <= len).
@@ -69,7 +72,7 @@ func (r *run) seqTake(v value, off value, n value) value {
 				return vv
 			}
 		}
-		return &sym{sx("str.substr", vv.t, intTerm(off), intTerm(n)), vv.sort}
+		return r.nameIfLarge(&sym{sx("str.substr", vv.t, intTerm(off), intTerm(n)), vv.sort})
 	case nil:
 		return []value(nil)
 	}
@@ -795,6 +798,8 @@ func (r *run) newUUID() value {
 	for i := range arr {
 		arr[i] = uint64(0)
 	}
+	arr[0] = uint64(0xab) // hex letters, so that case variants of the textual form differ
+	arr[1] = uint64(0xcd)
 	arr[6] = uint64(0x40)
 	arr[8] = uint64(0x80)
 	arr[14] = uint64(byte(r.uuidCount >> 8))
